@@ -1,7 +1,23 @@
 import PoryProofs.ParserConsts
 import PoryProofs.TopParse
 /-
-Helpers for C03b / C20 (parser side): the case loop of a `switch` statement.
+Helpers for C03b / C20 (parser side): the case loop of a `switch` statement (`parseSwitchCases`) and
+`parseSwitchStatement`.  Property theorems: PoryProofs/Properties/C03b.lean.
+
+* run form (`rsimp`, equational, errors included): `collect_run` / `collect_inv` (the value tokens of a
+  `case`), `oploop_run` / `oploop_inv` (the operand tokens of `var(…)`);
+* reference syntax of a case header `Hdr`; one loop iteration: `step` (accepted / rejected header),
+  `step_done`, `step_bad`, `step_second_default`, and the converse `step_inv`;
+* the loop as a trace of segments: `Iter` (exact fuel), `run_of_iter` (loop along a trace = loop from the end
+  of the trace, errors included), `iter_of_ok` (every successful run is a trace), `Accepted` /
+  `accepted_iff` (acceptance = new, pairwise distinct values and at most one default), `CasesOf` (the
+  fuel-free reading);
+* the statement: `OperandAt`, `SwitchRun`, `switch_wp` (every successful parse has that shape),
+  `switch_run` (the statement on a known shape hands on the result of the loop), `epv_wp`
+  (`expectPeekVarOrAutoVar`).
+The bodies of the cases are abstract: whatever `parseSwitchBlockStatement` parses; the only facts used
+about it are that it keeps the constants (PoryProofs/ParserConsts.lean) and the end-of-input token
+(`sdecAll`, ParserFuel4.lean).
 -/
 namespace Pory.SwitchParse
 open Pory Pory.Parser Pory.C02P Pory.TopParse
